@@ -211,8 +211,10 @@ class CtlRun:
             self.pending = [self.pending_line(i) for i in range(len(self.switches))]
         finally:
             self.finished = True
-            _wrapped["run"] = None
-            self.vm.stop()
+            try:
+                self.vm.stop()        # wake-ups during teardown are dropped by the logger (see install_wake_logger)
+            finally:
+                _wrapped["run"] = None
         return self
 
     def pending_line(self, i):
@@ -497,8 +499,10 @@ class EventRun:
             self.end = self.tick()
         finally:
             self.finished = True
-            _wrapped["run"] = None
-            self.vm.stop()
+            try:
+                self.vm.stop()        # wake-ups during teardown are dropped by the logger (see install_wake_logger)
+            finally:
+                _wrapped["run"] = None
         return self
 
 
